@@ -272,9 +272,9 @@ Definition d_case (x : sx) : option ccase :=
   | SList [SNum 0; t; ops; obs; keys; SNum ntmp] =>
       tab <- d_tab t ;; oo <- d_listof (d_fop tab) ops ;; bb <- d_listof (d_obs tab) obs ;;
       kk <- d_listof (d_key tab) keys ;; Some (CFsHist tab oo bb kk ntmp)
-  | SList [SNum 1; t; scripts; steps; results] =>
+  | SList [SNum 1; t; scripts; steps; results; SNum two] =>
       tab <- d_tab t ;; ss <- d_listof d_script scripts ;; st <- d_listof (d_step tab) steps ;;
-      rr <- d_listof (d_obs tab) results ;; Some (CSched tab ss st rr)
+      rr <- d_listof (d_obs tab) results ;; Some (CSched tab (negb (two =? 0)) ss st rr)
   | SList [SNum 2; t; scripts; results; keys; SNum ntmp; opens] =>
       tab <- d_tab t ;; ss <- d_listof d_script scripts ;; rr <- d_listof (d_obs tab) results ;;
       kk <- d_listof (d_key tab) keys ;; pp <- d_listof (d_probe tab) opens ;;
